@@ -23,6 +23,9 @@ Structs ==
     \cup { [k |-> "unit64", ver |-> v, tu |-> FALSE, asz |-> a, form |-> 0] :
               v \in {2, 3, 4, 5}, a \in (IF FullScripts THEN {4, 8} ELSE {8}) }
     \cup { [k |-> "unit64", ver |-> 5, tu |-> TRUE, asz |-> a, form |-> 0] : a \in (IF FullScripts THEN {4, 8} ELSE {}) }
+    (* expression operands; `form` carries the DWARF format (32/64) *)
+    \cup { [k |-> "expr", ver |-> v, tu |-> FALSE, asz |-> a, form |-> f] :
+              v \in {2, 3, 4, 5}, f \in {32, 64}, a \in (IF FullScripts THEN {4, 8} ELSE {8}) }
     \cup { [k |-> "line4", ver |-> 4, tu |-> FALSE, asz |-> a, form |-> 0] : a \in {4, 8} }
     \cup { [k |-> "line5", ver |-> 5, tu |-> FALSE, asz |-> a, form |-> f] : a \in {4, 8}, f \in {31, 14} }
     \cup { [k |-> kk, ver |-> 4, tu |-> FALSE, asz |-> a, form |-> 0] : kk \in {"ranges", "frame"}, a \in {4, 8} }
@@ -30,6 +33,7 @@ Structs ==
 
 Fields(s) == CASE s.k = "unit"     -> Unit(s.ver, s.asz, s.tu)
                [] s.k = "unit64"   -> Unit64(s.ver, s.asz, s.tu)
+               [] s.k = "expr"     -> ExprUnit(s.ver, s.asz, s.form)
                [] s.k = "line4"    -> LineV4(s.asz)
                [] s.k = "line5"    -> LineV5(s.asz, s.form)
                [] s.k = "ranges"   -> Ranges(s.asz)
@@ -38,6 +42,7 @@ Fields(s) == CASE s.k = "unit"     -> Unit(s.ver, s.asz, s.tu)
 (* companion sections that carry no relocation *)
 Aux(s) == CASE s.k = "unit"  -> [abbrev |-> AbbrevTable(s.ver)]
             [] s.k = "unit64" -> [abbrev |-> AbbrevTable64(s.ver)]
+            [] s.k = "expr"   -> [abbrev |-> AbbrevExpr(s.ver)]
             [] s.k = "line5" -> [str |-> StrSection]
             [] OTHER -> [none |-> <<>>]
 
